@@ -39,7 +39,7 @@ AGGS = ["stddev", "quantile", "min", "max", "covariance", "corrcoef"]
 def cases(draw, tier):
     if draw(st.integers(0, 24)) == 0:
         # hundreds / thousands of rows, many categories, up to ten fact columns (stored as a recipe)
-        spec = draw(Q.large_specs(["stddev", "quantile", "min", "max", "covariance"]))
+        spec = draw(Q.large_specs(["stddev", "quantile", "min", "max", "covariance"], max_n=4096))
         agg = spec["agg"]
         f = spec["fact"]
         f["dtype"] = "float"
